@@ -532,8 +532,35 @@ func (s *Store) UpdateLease(lease *Lease) error {
 	s.mu.Lock()
 	defer s.mu.Unlock()
 
-	if _, exists := s.leases[lease.ID]; !exists {
+	existing, exists := s.leases[lease.ID]
+	if !exists {
 		return fmt.Errorf("lease not found: %s", lease.ID)
+	}
+
+	// Update indexes if MAC or address changed (as UpdateSubscriber does)
+	if existing.MAC != nil && (lease.MAC == nil || existing.MAC.String() != lease.MAC.String()) {
+		if s.leaseByMAC[existing.MAC.String()] == lease.ID {
+			delete(s.leaseByMAC, existing.MAC.String())
+		}
+	}
+	if lease.MAC != nil {
+		s.leaseByMAC[lease.MAC.String()] = lease.ID
+	}
+	if existing.IPv4 != nil && (lease.IPv4 == nil || !existing.IPv4.Equal(lease.IPv4)) {
+		if s.leaseByIP[existing.IPv4.String()] == lease.ID {
+			delete(s.leaseByIP, existing.IPv4.String())
+		}
+	}
+	if lease.IPv4 != nil {
+		s.leaseByIP[lease.IPv4.String()] = lease.ID
+	}
+	if existing.IPv6 != nil && (lease.IPv6 == nil || !existing.IPv6.Equal(lease.IPv6)) {
+		if s.leaseByIP[existing.IPv6.String()] == lease.ID {
+			delete(s.leaseByIP, existing.IPv6.String())
+		}
+	}
+	if lease.IPv6 != nil {
+		s.leaseByIP[lease.IPv6.String()] = lease.ID
 	}
 
 	lease.UpdatedAt = time.Now()
@@ -691,8 +718,27 @@ func (s *Store) UpdateSession(session *Session) error {
 	s.mu.Lock()
 	defer s.mu.Unlock()
 
-	if _, exists := s.sessions[session.ID]; !exists {
+	existing, exists := s.sessions[session.ID]
+	if !exists {
 		return fmt.Errorf("session not found: %s", session.ID)
+	}
+
+	// Update indexes if MAC or address changed (as UpdateSubscriber does)
+	if existing.MAC != nil && (session.MAC == nil || existing.MAC.String() != session.MAC.String()) {
+		if s.sessionByMAC[existing.MAC.String()] == session.ID {
+			delete(s.sessionByMAC, existing.MAC.String())
+		}
+	}
+	if session.MAC != nil {
+		s.sessionByMAC[session.MAC.String()] = session.ID
+	}
+	if existing.IPv4 != nil && (session.IPv4 == nil || !existing.IPv4.Equal(session.IPv4)) {
+		if s.sessionByIP[existing.IPv4.String()] == session.ID {
+			delete(s.sessionByIP, existing.IPv4.String())
+		}
+	}
+	if session.IPv4 != nil {
+		s.sessionByIP[session.IPv4.String()] = session.ID
 	}
 
 	session.UpdatedAt = time.Now()
